@@ -14,4 +14,31 @@ TEXT = {
                 "a stated meta-argument; the AST->SMT translation, the finite-map/recency-order rule set and the SMT solvers are trusted.",
         "technique": "contract-based deductive verification: own VC generator over the real source + z3/cvc5",
     },
+    "C05": {
+        "level": "Every public operation of the real StorageBackendBase (lookup, read result, is-memoized, memoize with or without key override, forget call / function / everything, "
+                 "listings, custom metadata) is proved to refine one dictionary keyed by 'function-with-version/argument-hash' held by the abstract metadata source, and to preserve "
+                 "cache/store coherence (whatever the write-through MemoryCache or its weak references hold is exactly what the store holds, for any cache budget or no cache); "
+                 "every MemoryCache method is proved against its own contract. The history quantifier follows by induction over these per-operation contracts.",
+        "note": "Partial: the memory backend and DataSourceMetadataSource/_FilesystemDataSource are not yet proved against the interface contracts (assumed). Assumed: qualified names contain no '/'; "
+                "no I/O fault inside an operation; read_result is given the current memento; pickle round trip preserves the abstract value.",
+        "technique": "contract-based deductive verification: own VC generator over the real source + z3/cvc5",
+    },
+    "C07": {
+        "level": "Codec.BlobStrategy.store and NullStrategy.store are proved, for all inputs, against the abstract DataSource: the returned key is 'c/'+SHA-256(bytes) when no override is given, "
+                 "the bytes under the returned version are the serialized bytes, an existing content key is reused without any write (deduplication), every previously readable version "
+                 "keeps its bytes (immutability), and the store-wide integrity invariant J (bytes under a content key hash to it) is preserved, also on I/O errors. StorageBackendBase.memoize "
+                 "is proved (under C05) to keep every old version readable with the same content.",
+        "note": "Assumed: SHA-256 injective; the DataSource interface contract (output creates a fresh version, versions immutable) -- _FilesystemDataSource is not proved against it; "
+                "override keys do not start with 'c/'; encode() is a function of the object.",
+        "technique": "contract-based deductive verification: own VC generator over the real source + z3/cvc5",
+    },
+    "C19": {
+        "level": "With read_only set, every mutating operation of the real StorageBackendBase is proved to leave the ghost write counters of the metadata and data sources, the store view and the "
+                 "memory cache unchanged: memoize returns silently, forget_* and write_metadata raise ValueError before any callee runs; the flag is proved to come from the argument if given, "
+                 "else from the configuration, else False. NullStorageBackend methods are proved to report nothing memoized; NullRunnerBackend.batch_run is proved to raise without invoking "
+                 "any opaque callable.",
+        "note": "Assumed: every mutating method of the abstract sources increments the ghost write counter (interface contract); the memory backend, FilesystemStorageBackend.__init__ and the frame scan "
+                "of _FilesystemDataSource read methods are not covered yet.",
+        "technique": "contract-based deductive verification: own VC generator over the real source + z3/cvc5",
+    },
 }
